@@ -138,6 +138,9 @@ Fixpoint valid_utf8 (s : string) : bool :=
     end
   end.
 
+Fixpoint all_chars (p : ascii -> bool) (s : string) : bool :=
+  match s with "" => true | String c r => p c && all_chars p r end.
+
 (* ---------- numbers: positional notation in any base ---------- *)
 Fixpoint radix_fuel (b : N) (dig : N -> ascii) (fuel : nat) (n : N) (acc : string) : string :=
   match fuel with
